@@ -12,6 +12,14 @@ Reads the corpus bytes, tokenises like `CorpusCount`, numbers the words by first
 (`GrowableVocab`), runs the model (`mode=stream`: transcription of the C++; `mode=spec`: the
 set-based specification) and prints statistics, discounts and every n-gram with exact
 rational probability / back-off.
+
+  drv_C05 adjust [flushAdjusted=0/1] [keepSpecials=0/1]          (stream `adjust`)
+
+reads one sorted n-gram table per stdin line (`order thr_1,…,thr_order excl|- ; w_1 … w_order count ; …`,
+rows in natural word order) and prints what `KV.KN.adjust` + `KV.KN.discounts` (fallback
+1/2, 1, 3/2) give, in the canonical form of `harness/c05_adjust.cc`:
+`n|count|count_pruned|D1 D2 D3|w_w:adjusted:mark …` per order, orders joined by ` ; `,
+discounts as exact `num/den`.
 -/
 open KV KV.Proto KV.KN
 
@@ -49,8 +57,63 @@ def errStr : Err → String
   | .backoffMismatch n => s!"error backoff-mismatch {n}"
   | .specialSymbol => "error special-symbol"
 
+/-! ### stream `adjust`: `KV.KN.adjust` on an arbitrary sorted table -/
+
+def parseNatList (s : String) : Option (List Nat) :=
+  if s == "-" then some [] else (s.splitOn ",").mapM (·.toNat?)
+
+def emitKey (e : Emit) : List Nat := e.gram.reverse ++ [e.count, if e.marked then 1 else 0]
+
+def emitStr (e : Emit) : String :=
+  "_".intercalate (e.gram.reverse.map toString) ++ s!":{e.count}:{if e.marked then 1 else 0}"
+
+def parseRows (order : Nat) : List String → Option (List (Gram × Nat))
+  | [] => some []
+  | r :: rest =>
+    match (words r).mapM (·.toNat?) with
+    | none => none
+    | some [] => parseRows order rest
+    | some ws =>
+      if ws.length == order + 1 then
+        (parseRows order rest).map fun t => ((ws.take order).reverse, ws.getD order 0) :: t
+      else none
+
+def adjustLine (flushAdj keepSp : Bool) (line : String) : String :=
+  match line.splitOn ";" with
+  | [] => "error parse"
+  | head :: rows =>
+    match words head with
+    | [o, t, x] =>
+      match o.toNat?, parseNatList t, parseNatList x with
+      | some order, some thrL, some exclL =>
+        if order < 1 || order > 6 || thrL.length != order then "error parse" else
+        match parseRows order rows with
+        | none | some [] => "error parse"
+        | some table =>
+          let thrArr := thrL.toArray
+          let cfg : Cfg := { order := order, thr := fun i => thrArr.getD i 0, excl := fun w => exclL.contains w,
+                             flushAdjusted := flushAdj, keepSpecials := keepSp }
+          let a := adjust cfg table
+          match discounts (some ⟨1/2, 1, 3/2⟩) a.stats with
+          | .error _ => "error bad-discount"
+          | .ok ds =>
+            let parts := (List.range order).map fun i =>
+              let s := a.stats.getD i {}
+              let d := (ds.getD i (⟨0, 0, 0⟩, false)).1
+              let es := (a.streams.getD i []).mergeSort fun x y => decide (emitKey x ≤ emitKey y)
+              s!"{i+1}|{s.count}|{s.countPruned}|{ratStr d.d1} {ratStr d.d2} {ratStr d.d3}|" ++
+                " ".intercalate (es.map emitStr)
+            " ; ".intercalate parts
+      | _, _, _ => "error parse"
+    | _ => "error parse"
+
 def main (args : List String) : IO UInt32 := do
   match args with
+  | "adjust" :: opts =>
+    let fa := kv opts "flushAdjusted" "1" == "1"
+    let ks := kv opts "keepSpecials" "1" == "1"
+    runDriver () fun _ line => ((), adjustLine fa ks line)
+    return 0
   | corpusPath :: orderS :: opts =>
     let order := orderS.toNat?.getD 1
     let bytes ← IO.FS.readBinFile corpusPath
